@@ -9,6 +9,7 @@ CONSTANTS
   Mode = "chain"
   MaxLen = 24
   Chains = 40
+  Replays <- AllReplays
 INIT Init
 NEXT Next
-INVARIANTS TypeOK MonotoneLast CacheIsLastAccepted EmitHist
+INVARIANTS TypeOK MonotoneLast CacheIsLastAccepted ReplayRejected ReplayAsFresh KnownIsPresented ReplaySourced EmitHist
